@@ -85,6 +85,56 @@ namespace vt
         friend bool operator<=(const NA& a, const NA& b) { return a.id <= b.id; }
         friend bool operator>=(const NA& a, const NA& b) { return a.id >= b.id; }
     };
+    // An argument that lives INSIDE the alternative a variant currently holds (HD::inner), and the alternative NB it converts
+    // to: construction from it may throw, NB moves without throwing, NB's move ASSIGNMENT may throw.  `v = get<HD>(v).inner`
+    // is a defined call (std::variant builds a temporary NB from the argument first, because NB is not nothrow-constructible
+    // from it but nothrow-move-constructible, and only then destroys HD); a variant that destroys HD first reads a dead argument.
+    // NB also has an initializer_list constructor next to a two-argument one: emplace<NB>(a, b) is direct-initialisation, NB(a, b).
+    struct HArg
+    {
+        uint64_t id;
+        explicit HArg(uint64_t v) : id(v) { sim::registry().on_construct(this, 10, id, false); }
+        HArg(const HArg& o) : id(o.id) { sim::registry().use(&o, 10, "copy construction from"); sim::registry().on_construct(this, 10, id, false); }
+        HArg& operator=(const HArg&) = default;
+        ~HArg() { sim::registry().on_destroy(this, 10); }
+    };
+    struct NB
+    {
+        static constexpr uint64_t list_initialised = 0x11571157;
+        uint64_t id;
+        explicit NB(uint64_t v) : id(v) { sim::fault_point(sim::FK_THROW); sim::registry().on_construct(this, 11, id, false); }
+        NB(uint64_t a, uint64_t b) : id(a + b) { sim::fault_point(sim::FK_THROW); sim::registry().on_construct(this, 11, id, false); }
+        NB(std::initializer_list<uint64_t>) : id(list_initialised) { sim::registry().on_construct(this, 11, id, false); }
+        NB(const HArg& a) : id(a.id) { sim::registry().use(&a, 10, "construction of the alternative from"); sim::fault_point(sim::FK_THROW); sim::registry().on_construct(this, 11, id, false); }
+        NB(const NB& o) : id(o.id) { sim::fault_point(sim::FK_THROW); sim::registry().on_construct(this, 11, id, false); }
+        NB(NB&& o) noexcept : id(o.id) { sim::registry().on_construct(this, 11, id, false); }
+        NB& operator=(const HArg& a) { sim::registry().use(&a, 10, "assignment of the alternative from"); id = a.id; return *this; }
+        NB& operator=(const NB&) = default;
+        NB& operator=(NB&& o) noexcept(false) { id = o.id; return *this; }
+        ~NB() { sim::registry().on_destroy(this, 11); }
+        friend bool operator==(const NB& a, const NB& b) { return a.id == b.id; }
+        friend bool operator!=(const NB& a, const NB& b) { return a.id != b.id; }
+        friend bool operator<(const NB& a, const NB& b) { return a.id < b.id; }
+        friend bool operator>(const NB& a, const NB& b) { return a.id > b.id; }
+        friend bool operator<=(const NB& a, const NB& b) { return a.id <= b.id; }
+        friend bool operator>=(const NB& a, const NB& b) { return a.id >= b.id; }
+    };
+    static_assert(std::is_nothrow_move_constructible<NB>::value && !std::is_nothrow_move_assignable<NB>::value && !std::is_nothrow_constructible<NB, const HArg&>::value, "NB's shape");
+    struct HD
+    {
+        uint64_t id;
+        HArg inner;
+        explicit HD(uint64_t v) : id(v), inner(v) { sim::fault_point(sim::FK_THROW); sim::registry().on_construct(this, 6, id, false); }
+        HD(const HD& o) : id(o.id), inner(o.inner) { sim::registry().use(&o, 6, "copy construction from"); sim::fault_point(sim::FK_THROW); sim::registry().on_construct(this, 6, id, false); }
+        HD& operator=(const HD&) = default;
+        ~HD() { sim::registry().on_destroy(this, 6); }
+        friend bool operator==(const HD& a, const HD& b) { return a.id == b.id; }
+        friend bool operator!=(const HD& a, const HD& b) { return a.id != b.id; }
+        friend bool operator<(const HD& a, const HD& b) { return a.id < b.id; }
+        friend bool operator>(const HD& a, const HD& b) { return a.id > b.id; }
+        friend bool operator<=(const HD& a, const HD& b) { return a.id <= b.id; }
+        friend bool operator>=(const HD& a, const HD& b) { return a.id >= b.id; }
+    };
     // An alternative that is constructible and assignable from (almost) anything, as an any-like or a type-erasing wrapper
     // is - in particular from the variant that holds it.  What was swallowed that way is marked.
     struct GR
@@ -1014,10 +1064,24 @@ namespace
         static const char* xname() { return "SW"; }
         static const char* yname() { return "DB"; }
     };
+    struct SetHolder
+    {
+        using X = NB; using Y = HD;
+        static constexpr bool tracked = true;
+        static X mkx(uint64_t id) { return X(id); }
+        static uint64_t idx(const X& x) { return x.id; }
+        static const char* xname() { return "NB"; }
+        static const char* yname() { return "HD"; }
+    };
+    // 0: no assignment from a converting argument; 1: from a local Arg; 2: from an HArg, also one inside the held alternative
+    template <class S> struct arg_mode_of { static constexpr int value = 0; };
     template <class S> struct reg_tag_x { static constexpr int value = 5; };
     template <> struct reg_tag_x<SetSwap> { static constexpr int value = 9; };
     template <> struct reg_tag_x<SetGreedy> { static constexpr int value = 8; };
     template <> struct reg_tag_x<SetConverting> { static constexpr int value = 7; };
+    template <> struct reg_tag_x<SetHolder> { static constexpr int value = 11; };
+    template <> struct arg_mode_of<SetConverting> { static constexpr int value = 1; };
+    template <> struct arg_mode_of<SetHolder> { static constexpr int value = 2; };
 
     template <class S>
     struct SmallWorld
@@ -1121,7 +1185,8 @@ namespace
             if (S::tracked)
             {
                 size_t expect = 0;
-                for (int i = 0; i < 3; ++i) if (!model[i].valueless && model[i].index >= 1) ++expect;
+                // (an HD holds a registered member of its own)
+                for (int i = 0; i < 3; ++i) if (!model[i].valueless && model[i].index >= 1) expect += (model[i].index == 2 && arg_mode_of<S>::value == 2) ? 2 : 1;
                 if (registry().live.size() != expect)
                     viol("lifetime", "population", std::to_string(registry().live.size()) + " registered objects are live, " + std::to_string(expect) + " are held by the variants (leak, lost object, or an alternative that was never constructed/destroyed)");
             }
@@ -1250,8 +1315,58 @@ namespace
             check_all();
         }
         // assignment from a value that converts to alternative 1: assignable without throwing, constructible only with a throw possible
-        void op_arg_assign(const Step& st, std::false_type) { Scope sc(*this, st, "read", "all"); check_all(); }
-        void op_arg_assign(const Step& st, std::true_type)
+        void op_arg_assign(const Step& st, std::integral_constant<int, 0>) { Scope sc(*this, st, "read", "all"); check_all(); }
+        void op_arg_assign(const Step& st, std::integral_constant<int, 2>)
+        {
+            int t = st.actor % 3;
+            MV pre = model[t];
+            bool inside = !pre.valueless && pre.index == 2;
+            Scope sc(*this, st, "arg_assign", name_of(model[t]) + (inside ? "_from_the_argument_inside_it" : "_from_HArg"));
+            uint64_t id = inside ? pre.id : fresh();
+            MV want; want.index = 1; want.id = id;
+            bool threw = false;
+            if (inside)
+            {
+                // the argument is a member of the alternative this very assignment is going to replace
+                SV& v = slot[t].get();
+                try { v = xtl::get<2>(v).inner; }
+                catch (const Injected&) { threw = true; }
+                SIM_PROBE("converting_assignment_from_inside_the_held_alternative");
+            }
+            else
+            {
+                HArg a(id);
+                try { slot[t].get() = a; }
+                catch (const Injected&) { threw = true; }
+            }
+            if (threw) { settle_after_throw(t, pre, &want); if (model[t].valueless) SIM_PROBE("valueless_by_assignment"); SIM_PROBE("converting_assignment_threw_in_constructor"); }
+            else model[t] = want;
+            ++run.changing;
+            check_all();
+        }
+        // emplace / in-place construction with two arguments is direct-initialisation: NB(a, b), never NB{a, b}
+        bool emplace_two(const Step&, int, std::false_type) { return false; }
+        bool emplace_two(const Step& st, int t, std::true_type)
+        {
+            Scope sc(*this, st, "emplace_two_arguments", name_of(model[t]) + "_to_NB");
+            MV pre = model[t];
+            uint64_t id = fresh();
+            MV want; want.index = 1; want.id = id;
+            bool threw = false;
+            try
+            {
+                if (st.b & 8) { slot[t].get().template emplace<X>(id - 1, uint64_t(1)); }
+                else if (st.b & 16) { slot[t].get().template emplace<1>(id - 1, uint64_t(1)); }
+                else { slot[t].get() = SV(mpark::in_place_index_t<1>{}, id - 1, uint64_t(1)); }
+            }
+            catch (const Injected&) { threw = true; }
+            if (threw) settle_after_throw(t, pre, &want); else model[t] = want;
+            SIM_PROBE("alternative_built_from_two_arguments");
+            ++run.changing;
+            check_all();
+            return true;
+        }
+        void op_arg_assign(const Step& st, std::integral_constant<int, 1>)
         {
             int t = st.actor % 3;
             Scope sc(*this, st, "arg_assign", name_of(model[t]) + "_from_Arg");
@@ -1278,6 +1393,7 @@ namespace
         {
             int t = st.actor % 3;
             size_t alt = static_cast<size_t>(st.a % 3);
+            if (arg_mode_of<S>::value == 2 && alt == 1 && (st.b & 4) && emplace_two(st, t, std::integral_constant<bool, arg_mode_of<S>::value == 2>())) return;
             Scope sc(*this, st, "emplace_index", name_of(model[t]) + "_to_" + alt_name(alt));
             MV pre = model[t];
             uint64_t id = canon(alt, fresh());
@@ -1365,7 +1481,7 @@ namespace
             case OP_emplace_index: case OP_emplace_type: op_emplace(st); break;
             case OP_swap: op_swap(st); break;
             case OP_relop: op_relop(st); break;
-            case OP_visit1: case OP_visit2: case OP_hash: op_arg_assign(st, std::is_same<S, SetConverting>()); break;
+            case OP_visit1: case OP_visit2: case OP_hash: op_arg_assign(st, std::integral_constant<int, arg_mode_of<S>::value>()); break;
             default: { Scope sc(*this, st, "read", "all"); check_all(); } break;
             }
         }
@@ -1437,6 +1553,7 @@ namespace
     RegisterCfg reg_c("int_double_TT_trivially_destructible", gen, exec_small<SmallWorld<SetTrivial>>, 1, false);
     RegisterCfg reg_d("int_NA_DB_converting_assignment", gen_conv, exec_small<SmallWorld<SetConverting>>, 1, false);
     RegisterCfg reg_e("int_GR_DB_alternative_constructible_from_anything", gen, exec_small<SmallWorld<SetGreedy>>, 1, false);
+    RegisterCfg reg_h("int_NB_HD_argument_inside_the_held_alternative", gen_conv, exec_small<SmallWorld<SetHolder>>, 1, false);
     RegisterCfg reg_g("int_MA2_TV_alternative_with_own_move_assignment", gen, exec_small<SmallWorld<SetMoveAssign>>, 1, false);
     RegisterCfg reg_f("int_SW_DBN_alternative_with_throwing_swap", gen, exec_small<SmallWorld<SetSwap>>, 1, false);
 }
